@@ -132,6 +132,12 @@ func NewWorld(c Config) (*World, error) {
 		durs := a.IncentivesKeeper.GetLockableDurations(ctx)
 		var recs []poolincentivestypes.DistrRecord
 		for _, wgt := range c.Records {
+			if wgt < 0 {
+				// the community-pool record: gauge id 0, weight |wgt|
+				w.Gauges = append(w.Gauges, 0)
+				recs = append(recs, poolincentivestypes.DistrRecord{GaugeId: 0, Weight: osmomath.NewInt(-wgt)})
+				continue
+			}
 			id, err := a.IncentivesKeeper.CreateGauge(ctx, true, core.Acc("owner"), sdk.Coins{},
 				lockuptypes.QueryCondition{LockQueryType: lockuptypes.ByDuration, Denom: lockDenom, Duration: durs[0]},
 				ctx.BlockTime(), 1, 0)
@@ -186,6 +192,10 @@ func (w *World) Observe(ctx sdk.Context) *Obs {
 		}
 	}
 	for _, id := range w.Gauges {
+		if id == 0 {
+			o.Gauges = append(o.Gauges, big.NewInt(0)) // community-pool record: nothing to observe here
+			continue
+		}
 		g, err := a.IncentivesKeeper.GetGaugeByID(ctx, id)
 		if err != nil {
 			panic(err)
